@@ -203,6 +203,17 @@ def _to_poly(t, symbols: dict):
     if t[0] == 'call' and t[1] == ('attr', ('var', 'jnp'), 'arange') and len(t[2]) == 1:
         symbols.setdefault('__arange__', []).append(t[2][0])
         return Poly.atom(('sym', 't'))
+    if t[0] == 'call' and t[1] == ('var', 'abs') and len(t[2]) == 1 and '__sign__' in symbols:
+        inner = _to_poly(t[2][0], symbols)
+        return inner if symbols['__sign__'] > 0 else -inner
+    if t[0] == 'sub' and t[2][0] == 'slice' and t[2][1] == ('none',) and t[2][3] == ('none',) and t[2][2] != ('none',):
+        # X[:m] : the first m elements - only if m >= 0 (a negative stop counts from the end instead)
+        symbols.setdefault('__stops__', []).append(t[2][2])
+        base = _to_poly(t[1], symbols)
+        ar = symbols.get('__arange__', [])
+        if ar:
+            ar[-1] = t[2][2]  # the element count is now the slice stop
+        return base
     raise ValueError(show(t))
 
 
@@ -257,8 +268,21 @@ def _dense_builder(ck, world: World) -> None:
             ok_val = written is not None and written[0] == 'sub' and written[2] == ('call', ('var', 'abs'), (('var', j),), ())
         inst = 'upper diagonals (j >= 0)' if nonneg else 'lower diagonals (j < 0)'
         symbols.pop('__arange__', None)
+        symbols.pop('__stops__', None)
+        symbols['__sign__'] = 1 if nonneg else -1
         try:
             k = _to_poly(idx_t, symbols) if idx_t is not None else None
+            for stop_t in symbols.pop('__stops__', []):
+                sp = _to_poly(stop_t, symbols)
+                bad_at = None
+                for nv in range(1, 5):
+                    for jv in (range(0, 8) if nonneg else range(-8, 0)):
+                        val = sum(c * (nv ** dict(m).get(('sym', 'n'), 0)) * (jv ** dict(m).get(('sym', 'j'), 0)) for m, c in sp.normal().t.items() if all(a in (('sym', 'n'), ('sym', 'j')) for a, _ in m))
+                        if val < 0 and bad_at is None:
+                            bad_at = (nv, jv, val)
+                if bad_at is not None:
+                    ck.bad('Z9', loop, f'the indices are taken with a slice [:{sp}] whose stop is negative for band offsets beyond the matrix size (e.g. n={bad_at[0]}, j={bad_at[1]}: stop {bad_at[2]}): a negative stop '
+                           'counts from the end instead of giving an empty selection, so for K >= n + 2 far bands are written onto in-range elements', instance=inst + ' slice stop')
             ar = symbols.pop('__arange__', [])
             m = _to_poly(ar[0], symbols) if len(ar) == 1 else None
             symbols.pop('__arange__', None)
